@@ -667,8 +667,14 @@ func writeEvidence(prop, tier string, plan Plan, m *Report, bounds []string, wal
 		"violations":  confirmed,
 	}
 	b, _ := json.MarshalIndent(ev, "", " ")
-	os.MkdirAll(filepath.Join(verifDir, "evidence"), 0o755)
-	if err := os.WriteFile(filepath.Join(verifDir, "evidence", prop+".json"), b, 0o644); err != nil {
+	// runs against a deliberately changed /repo (tools/seedcheck.py, tools/reseed.py)
+	// set VMC_EVIDENCE_DIR so that they do not overwrite the evidence of the unchanged tree
+	evDir := filepath.Join(verifDir, "evidence")
+	if d := os.Getenv("VMC_EVIDENCE_DIR"); d != "" {
+		evDir = d
+	}
+	os.MkdirAll(evDir, 0o755)
+	if err := os.WriteFile(filepath.Join(evDir, prop+".json"), b, 0o644); err != nil {
 		fatal("%v", err)
 	}
 }
